@@ -25,45 +25,49 @@ Definition ins_name (r : name_rr) (l : list name_rr) : list name_rr * bool :=
   if existsb (fun x => bytes_eqb (nr_name x) (nr_name r)) l then (l, false) else (l ++ [r], true).
 
 (* ------------------------------------------------------------------ *)
-(* net.ParseIP restricted to what decodeRRs needs (Go 1.23 netip.ParseAddr):
-   the first of '.', ':', '%' decides the syntax; IPv6 text is not modelled. *)
-Inductive parsed_ip := PIerr | PIv4 (a b c d : N) | PIv6text.
-
-(* parseIPv4Fields: state = (val, digLen, pos, fields so far reversed, previous char was '.' or start) *)
-Fixpoint ipv4_fields (s : bytes) (val : N) (diglen : nat) (acc : list N) (first : bool) (prevdot : bool)
-  : option (list N) :=
+(* netip.ParseAddr(s) followed by Is4(), as decodeRRs uses it on a PTR owner (Go 1.23 stdlib,
+   modelled at the level of its IPv4 grammar): the first of '.', ':', '%' selects the syntax, so a
+   string is an IPv4 address iff it is exactly four '.'-separated fields, each one to three decimal
+   digits without leading zero and at most 255.  Every other string (IPv6 text, including the
+   IPv4-mapped form, which is Is4In6, not Is4; zones; garbage) is an error or not Is4. *)
+Fixpoint split_dots (s : bytes) : list bytes :=
   match s with
-  | [] =>
-      if Nat.ltb (length acc) 3 then None else Some (rev (val :: acc))
+  | [] => [[]]
   | c :: r =>
-      if (48 <=? c) && (c <=? 57) then
-        if Nat.eqb diglen 1 && (val =? 0) then None
-        else
-          let v := val * 10 + (c - 48) in
-          if 255 <? v then None else ipv4_fields r v (S diglen) acc false false
-      else if c =? 46 then
-        (* i == 0 || i == len(s)-1 || s[i-1] == '.' *)
-        if first || prevdot || match r with [] => true | _ => false end then None
-        else if Nat.eqb (length acc) 3 then None
-        else ipv4_fields r 0 0 (val :: acc) false true
-      else None
+      if c =? 46 then [] :: split_dots r
+      else match split_dots r with
+           | f :: fs => (c :: f) :: fs
+           | [] => [[c]]
+           end
   end.
 
-Fixpoint first_special (s : bytes) : N :=
+Fixpoint digits_val (s : bytes) (acc : N) : option N :=
   match s with
-  | [] => 0
-  | c :: r => if (c =? 46) || (c =? 58) || (c =? 37) then c else first_special r
+  | [] => Some acc
+  | c :: r => if (48 <=? c) && (c <=? 57) then digits_val r (acc * 10 + (c - 48)) else None
   end.
 
-Definition parse_ip (s : bytes) : parsed_ip :=
-  let f := first_special s in
-  if f =? 46 then
-    match ipv4_fields s 0 0 [] true false with
-    | Some [a; b; c; d] => PIv4 a b c d
-    | _ => PIerr
-    end
-  else if f =? 58 then PIv6text
-  else PIerr.
+Definition ip4_octet (s : bytes) : option N :=
+  match s with
+  | [] => None
+  | [c] => digits_val s 0
+  | c :: _ => if c =? 48 then None
+              else if Nat.ltb 3 (length s) then None
+              else match digits_val s 0 with
+                   | Some v => if v <=? 255 then Some v else None
+                   | None => None
+                   end
+  end.
+
+Definition parse_ipv4 (s : bytes) : option (list N) :=
+  match split_dots s with
+  | [a; b; c; d] =>
+      match ip4_octet a, ip4_octet b, ip4_octet c, ip4_octet d with
+      | Some a', Some b', Some c', Some d' => Some [a'; b'; c'; d']
+      | _, _, _, _ => None
+      end
+  | _ => None
+  end.
 
 (* strings.TrimSuffix(s, suffix) *)
 Definition trim_suffix (s suffix : bytes) : bytes :=
@@ -72,6 +76,13 @@ Definition trim_suffix (s suffix : bytes) : bytes :=
 
 (* ".in-addr.arpa" *)
 Definition IN_ADDR_ARPA : bytes := [46; 105; 110; 45; 97; 100; 100; 114; 46; 97; 114; 112; 97].
+
+(* s := strings.TrimSuffix(name, ".in-addr.arpa"); addr, err := netip.ParseAddr(s);
+   len(s) == len(name) || err != nil || !addr.Is4()  =>  the record is ignored.
+   Result: the octets [a; b; c; d] of the text a.b.c.d in front of the suffix. *)
+Definition parse_ptr_owner (name : bytes) : option (list N) :=
+  let s := trim_suffix name IN_ADDR_ARPA in
+  if Nat.eqb (length s) (length name) then None else parse_ipv4 s.
 
 (* ------------------------------------------------------------------ *)
 (* one name decode of decodeRRs: tmpBuf = buffer; decodeName(p, off, &tmpBuf, 1).
@@ -119,10 +130,8 @@ Definition rr_step (p : slice) (buffer : slice) (offset : nat) (e : dns_entry)
             (Ok (offset', u, e'), e')
         end
       else if t =? 12 then
-        match parse_ip (trim_suffix name IN_ADDR_ARPA) with
-        | PIerr => (Ok (offset', false, e), e)   (* not an IPv4 reverse name: record ignored (fix 4) *)
-        | PIv6text => (Err ETimeout, e)   (* IPv6 text form: not modelled; the harness never produces ':' in a message *)
-        | PIv4 a b c d =>
+        match parse_ptr_owner name with
+        | Some [a; b; c; d] =>
             match rr_decode_name p (endq + 10) buffer with
             | Err x => (Err x, e) | Panic => (Panic, e) | Fuel => (Fuel, e)
             | Ok (ptr, _) =>
@@ -130,6 +139,7 @@ Definition rr_step (p : slice) (buffer : slice) (offset : nat) (e : dns_entry)
                 let e' := mkDE (de_name e) (de_ip4 e) (de_ip6 e) (de_cname e) l in
                 (Ok (offset', u, e'), e')
             end
+        | _ => (Ok (offset', false, e), e)   (* not an IPv4 reverse name: record ignored *)
         end
       else (Ok (offset', false, e), e)
     end
